@@ -99,21 +99,27 @@ def conv(model, sid, toklife, filters=None, store="memory", probes=(), tags=()):
 
 
 def redis_cmd_variants(sc, maxcmd=3):
-    """For a Redis-backed scenario with a store fault 'before', the variants in which a single Redis command of that call fails."""
+    """For a Redis-backed scenario with a store fault 'before', the variants in which a single Redis command of that call fails;
+    once as configured and once with session timeouts configured (every call then ends in an extra EXPIREAT command)."""
     out = []
-    for k in range(1, maxcmd + 1):
-        v = json.loads(json.dumps(sc))
-        hit = False
-        for st in v["steps"]:
-            d = st.get("dir") or {}
-            if d.get("fault") == "before":
-                d["fault"] = "cmd%d" % k
-                hit = True
-        if hit:
-            v["id"] = sc["id"] + "/cmd%d" % k
+    for timeouts in (False, True):
+        for k in range(1, maxcmd + (2 if timeouts else 0) + 1):
+            v = json.loads(json.dumps(sc))
+            hit = False
             for st in v["steps"]:
-                st.pop("expect", None)
-            out.append(v)
+                d = st.get("dir") or {}
+                if d.get("fault") == "before":
+                    d["fault"] = "cmd%d" % k
+                    hit = True
+            if hit:
+                v["id"] = sc["id"] + "/cmd%d%s" % (k, "/ttl" if timeouts else "")
+                if timeouts:
+                    for f in v["cfg"]["filters"]:
+                        if f.get("store") == "redis" and not f.get("abs") and not f.get("idle"):
+                            f["abs"], f["idle"] = 50000, 30000
+                for st in v["steps"]:
+                    st.pop("expect", None)
+                out.append(v)
     return out
 
 
@@ -1134,7 +1140,7 @@ def dispatch_pipeline(prop, W, cases, replay=None, assumptions=()):
     if v["fired"].get("scenarios", 0) != len(cases):
         raise Infra("DispatchTrace judged %s cases, driver ran %d" % (v["fired"].get("scenarios"), len(cases)))
     return judge(prop, W, [v], index, traces=len(cases), samples=[{"case": cases[min(5, len(cases) - 1)], "recorded_events": sample_events_at(trace, 3)}],
-                 assumptions=list(assumptions), extra_cov={"decisions": len(cases) * (len(all_targets()) if prop == "C07" else 8)})
+                 assumptions=list(assumptions), extra_cov={"decisions": len(cases) * (len(all_targets()) if prop == "C07" else 14)})
 
 
 def sample_events_at(trace, n):
@@ -1181,6 +1187,17 @@ def random_rule_cases(W, n):
             for p_ in r_["excl"]:
                 own.append(list("/secret?x=") + p_["lit"])
                 own.append(list("/secret#") + p_["lit"])
+                # hostile tails: a bad percent-escape, control bytes, repeated separators (what URL parsers choke on or split differently)
+                own.append(list("/secret#%") + p_["lit"])
+                own.append(list("/secret?x=\x7f") + p_["lit"])
+                own.append(list("/secret?a=1?b=") + p_["lit"])
+                own.append(list("/secret#a#") + p_["lit"])
+                own.append(list("/secret?%zz#%") + p_["lit"])
+            for p_ in r_["incl"]:
+                if p_["kind"] in ("exact", "prefix", "suffix") and p_["lit"] and p_["lit"][0] == "/":
+                    own.append(p_["lit"] + list("#%"))
+                    own.append(p_["lit"] + list("?x=\t"))
+                    own.append(p_["lit"] + list("?a?b"))
         res.append({"id": "c07/random/%d" % i, "kind": "c07", "rules": rules, "own": own})
     return res
 
